@@ -176,7 +176,13 @@ def coq_eval(prop, imports, terms, per_file=250, timeout=900, tag='cases', prelu
     results = [None] * len(shards)
     pending = list(enumerate(names))
     running = []
-    maxp = 16
+    # as many coqc processes as the machine can take right now (each may need ~1 GB): 16 when idle, fewer under load
+    try:
+        load = os.getloadavg()[0]
+    except OSError:
+        load = 0.0
+    maxp = 16 if load < 10 else 8 if load < 24 else 4
+    retried = set()
     deadline = time.time() + timeout
     while pending or running:
         while pending and len(running) < maxp:
@@ -194,6 +200,13 @@ def coq_eval(prop, imports, terms, per_file=250, timeout=900, tag='cases', prelu
                 still.append((k, name, p))
             else:
                 out = p.stdout.read()
+                if p.returncode != 0 and not out.strip() and k not in retried:
+                    # killed without a message (typically by the OOM killer on a loaded machine): run it once more,
+                    # alone at the end of the queue
+                    retried.add(k)
+                    pending.append((k, name))
+                    maxp = max(2, maxp // 2)
+                    continue
                 if p.returncode != 0:
                     raise RuntimeError(f'coqc failed on {wd}/{name}.v:\n{out[-3000:]}')
                 body = _parse_redirect(os.path.join(wd, name + '.out'))
